@@ -3,6 +3,8 @@
 import numpy as np
 from hypothesis import strategies as st
 
+from ..core import sampled_from  # noqa: E402
+
 from .. import build, datagen, meshgen
 from ..core import Failure
 from .c05 import RULES
@@ -30,12 +32,12 @@ BUDGET = {
 @st.composite
 def _case(draw, tier):
     big = tier != "quick"
-    fam = draw(st.sampled_from(["any", "any", "solid", "single", "mpas"]))
+    fam = draw(sampled_from(["any", "any", "solid", "single", "mpas"]))
     radius = 1.0
     if fam == "mpas":
         # a source that supplies its own areas (areaCell, in the units of its sphere radius)
         mesh = draw(meshgen.voronoi_mesh(14, 30 if big else 22, renumber=False))
-        radius = draw(st.sampled_from([1.0, 6371229.0]))
+        radius = draw(sampled_from([1.0, 6371229.0]))
     elif fam == "solid":
         mesh = draw(meshgen.solid_mesh_st())
     elif fam == "single":
@@ -47,16 +49,16 @@ def _case(draw, tier):
         mesh["faces"] = [[remap[i] for i in mesh["faces"][0]]]
     else:
         mesh = draw(meshgen.any_mesh(max_pts=34 if big else 16, tiny=True))
-    mode = draw(st.sampled_from(["face", "face", "face", "node", "edge"]))
+    mode = draw(sampled_from(["face", "face", "face", "node", "edge"]))
     nf = len(mesh["faces"])
     c = {
         "mesh": mesh,
         "mode": mode,
         # (MPAS-like sources: the default rule in two thirds of the cases, decided by its own draw)
-        "rule": ("triangular", 4) if (fam == "mpas" and draw(st.integers(0, 2)) > 0) else draw(st.sampled_from([("triangular", 4)] + RULES)),
-        "history": draw(st.lists(st.sampled_from(RULES), max_size=2)),
+        "rule": ("triangular", 4) if (fam == "mpas" and draw(st.integers(0, 2)) > 0) else draw(sampled_from([("triangular", 4)] + RULES)),
+        "history": draw(st.lists(sampled_from(RULES), max_size=2)),
         "coef": [draw(st.integers(-3, 3)), draw(st.integers(-3, 3))],
-        "name": draw(st.sampled_from(["psi", "v", None])),
+        "name": draw(sampled_from(["psi", "v", None])),
         "source": "mpas" if fam == "mpas" else "topology",
         "radius": radius,
     }
